@@ -41,6 +41,12 @@ def gen_cases(rng, tier):
     # before it see the whole target
     for obs in ('dump', 'stream', 'checkpoint', 'finalizer', 'printer', 'zip'):
         cases.append({'kind': 'observer', 'sizes': [3, 5], 'obs': obs, 'suffix': 'join_inner', 'prefix': 'empty_first'})
+    for n_ in (1, 3, 7, 30):
+        cases.append({'kind': 'observer', 'sizes': [n_], 'obs': 'printer', 'suffix': 'mutate', 'prefix': 'none'})
+    # runs that abort while rows are flowing: a finalizer placed before the failing step must not fire at all
+    for obs in ('finalizer', 'finalizer_stats'):
+        for n_, at in ((5, 2), (150, 120), (3, 0)):
+            cases.append({'kind': 'abort', 'sizes': [n_], 'obs': obs, 'at': at, 'prefix': 'none', 'suffix': 'none'})
     for odd in ([0], [1], [0, 2], []):
         cases.append({'kind': 'observer', 'sizes': [3, 4, 2], 'obs': 'dump_noforce', 'suffix': 'none', 'prefix': 'none', 'odd': odd})
     return cases
@@ -166,6 +172,23 @@ def run_impl(case):
                         delivered_count[0] += 1
                 rows.append(cur)
         return ds.dp.descriptor, rows
+    if case['kind'] == 'abort':
+        import gc
+
+        def failing(rows):
+            for i, r in enumerate(rows):
+                if i == case['at']:
+                    raise RuntimeError('a later step fails here')
+                yield r
+        raised = False
+        try:
+            with quiet():
+                Flow(*(prefix() + [observer(), failing])).process()
+        except Exception:
+            raised = True
+        gc.collect()
+        shutil.rmtree(wd, ignore_errors=True)
+        return {'raised': raised, 'calls_after_abort': len(calls)}
     out = {}
     try:
         dp0, rows0 = run(prefix() + suffix_steps(case, names))
@@ -230,6 +253,9 @@ def run_impl(case):
                 idx = [int(l.split()[0]) for l in t.splitlines() if l.split() and l.split()[0].isdigit()]
                 last.append(max(idx) if idx else 0)
             out['printer_last_index'] = last
+            # the values shown must be those of the stream at the printer's position (a later step adds 1000 to v in place)
+            nums = [int(tok) for t in state['printed'] for tok in t.replace('|', ' ').split() if tok.isdigit()]
+            out['printer_max_number'] = max(nums) if nums else 0
         elif o in ('finalizer', 'finalizer_stats'):
             out['calls'] = calls
             out['total_delivered'] = delivered_count[0]
@@ -250,6 +276,12 @@ def rows_enc_l(rows):
 
 
 def oracle(case, out):
+    if case['kind'] == 'abort':
+        if not out['raised']:
+            return 'a later step raised at row %d but the run returned normally' % case['at']
+        if out['calls_after_abort']:
+            return 'the run aborted at row %d of %d, yet the finalizer fired (%d times)' % (case['at'], case['sizes'][0], out['calls_after_abort'])
+        return None
     if 'error' in out:
         if case['suffix'] in ('concat',) and 'empty row' in out['error']:
             return None
@@ -281,6 +313,9 @@ def oracle(case, out):
             return 'printer reported %d resources of %d' % (out['tables'], len(want))
         if out['printer_last_index'] != want:
             return 'printer\'s last row indexes %r, stream lengths %r' % (out['printer_last_index'], want)
+        limit = 2000 if case['prefix'] == 'row_fn' else 1000
+        if out.get('printer_max_number', 0) >= limit:
+            return 'printer shows the value %d: rows as edited by a later step, not the stream at its position' % out['printer_max_number']
     if o == 'finalizer_stats':
         ss = out.get('stats_seen') or {}
         if ss.get('seen') is not True or ss.get('count_of_rows') != sum(want) or not ss.get('has_hash'):
@@ -294,7 +329,7 @@ def oracle(case, out):
 
 
 def coq_term(case, out):
-    if 'error' in out or len(case['sizes']) != 1 or case['sizes'][0] > 20:
+    if case['kind'] == 'abort' or 'error' in out or len(case['sizes']) != 1 or case['sizes'][0] > 20:
         return None
     # single-resource cases: the model's observer is transparent and records every row
     # (a prefix that filters every row away leaves an empty stream at the observer's position)
@@ -305,7 +340,7 @@ def coq_term(case, out):
 
 
 def nontrivial(case, out):
-    return case['suffix'] not in ('none', 'add_field')
+    return case['kind'] == 'abort' or case['suffix'] not in ('none', 'add_field')
 
 
 def shrinks(case):
